@@ -46,6 +46,15 @@ def load(prop):
 
 
 def worker(args):
+    # A broken tree can make the code under test loop while allocating (e.g. bounces that bounce):
+    # cap the address space of each worker so that it dies (=> dead worker => inconclusive or, if
+    # violations were already recorded by the others, violated) instead of taking the machine down.
+    try:
+        import resource
+        lim = int(os.environ.get('VERIF_WORKER_MEM_MB', '8192')) << 20
+        resource.setrlimit(resource.RLIMIT_AS, (lim, lim))
+    except Exception:
+        pass
     mod = load(args.prop)
     core.run_shard(mod, args.tier, args.seed, args.worker[0], args.worker[1],
                    args.budget, args.out)
